@@ -182,6 +182,11 @@ class Ctx:
         nlines = sum(1 for _ in open(trace_file))
         st = {"stage": "trace", "model": cfg, "events": nlines, "runs": runs, "wall_s": round(dt, 1), "label": label}
         self.cov["stages"].append(st)
+        for fid in sorted(set(re.findall(r'"KNOWN-FINDING", "(\w+)"', out))):
+            desc = next((f["description"] for f in self.findings if f["id"] == fid and f.get("status") == "known"), None)
+            if desc is None:
+                raise ToolError("trace specification %s used deviation %s which is not a listed known finding" % (cfg, fid))
+            self.known_hits.append((fid, desc))
         if "Model checking completed. No error has been found." in out:
             st["accepted"] = True
             self.cov["traces_validated_against_impl"] += runs
@@ -236,6 +241,60 @@ class Ctx:
             rp = self.write_replay("gen-" + what, {"what": what + " disagrees with a behaviour generated from the specification", "first": res["first"]})
             self.violation("%s: %d generated behaviours disagree, e.g. %s" % (what, res["mismatches"], res["first"][0]["what"]), rp)
         log("REPLAY %s: %s behaviours, %s steps, %s mismatches" % (what, res.get("behaviours"), res.get("steps"), res.get("mismatches")))
+
+    # ---------------------------------------------------------------- end-to-end runs
+    def e2e(self, plan, binary=None):
+        """runs scenario families of the real client+server (h-quic); plan = [(family, count)];
+        returns {family: master trace path}.  A stalled executor or a panic is a `stall`/`panic` line in the
+        trace, which no specification accepts."""
+        hb = binary or self.build("h-quic")
+        out = {}
+        for fam, count in plan:
+            tf = os.path.join(self.out, "e2e-%s.ndjson" % fam)
+            r = self.harness(hb, ["e2e", fam, self.seed, count, tf], timeout=1500)
+            self.cov["stages"].append({"stage": "e2e", "family": fam, **{k: v for k, v in r.items() if not k.startswith("_")}})
+            log("E2E %s: %d runs, %d events, %d stalls/panics (%.0fs)" % (fam, r["runs"], r["events"], r["stalls_or_panics"], r["_wall_s"]))
+            out[fam] = (tf, r["runs"])
+        return out
+
+    def filtered(self, master, kinds, name):
+        """per-specification view of a master trace: keeps the listed event kinds, nothing is rewritten or reordered"""
+        dst = os.path.join(self.out, name)
+        keep = set(kinds)
+        n = 0
+        with open(dst, "w") as o:
+            for line in open(master):
+                m = re.search(r'"ev":"([a-z_]+)"', line)
+                if m and m.group(1) in keep:
+                    o.write(line)
+                    n += 1
+        return dst, n
+
+    def validate_families(self, traces, spec, kinds, cfg=None):
+        ok = True
+        for fam, (tf, runs) in traces.items():
+            f, n = self.filtered(tf, kinds, "%s-%s.ndjson" % (spec, fam))
+            ok &= self.trace(spec, f, runs=runs, label=fam, cfg=cfg)
+            # distinct non-trivial runs: by content hash; non-trivial = the run contains a network fault or a
+            # flow-control / reset / stop frame (i.e. something beyond the straight-line transfer)
+            nt = re.compile(r'"act":"(?!pass)|"ty":"(stream_data_blocked|data_blocked|streams_blocked|reset_stream|stop_sending|max_stream_data|max_data|max_streams)"|"ev":"(packet_lost|app_reset|app_stop)"')
+            cur, flag = hashlib.sha1(), False
+            def close_run():
+                if flag:
+                    self._distinct.add(spec + ":" + cur.hexdigest())
+            for line in open(f):
+                if '"ev":"reset"' in line:
+                    close_run()
+                    cur, flag = hashlib.sha1(), False
+                cur.update(line.encode())
+                if not flag and nt.search(line):
+                    flag = True
+            close_run()
+            if len(self.cov["samples"]) < 3:
+                with open(f) as fh:
+                    lines = [next(fh, "") for _ in range(400)]
+                self.sample({"trace_excerpt(%s,%s)" % (spec, fam): [json.loads(x) for x in lines[200:206] if x.strip()]})
+        return ok
 
     # ---------------------------------------------------------------- results
     def count(self, evaluations=0, nontrivial_keys=()):
@@ -295,7 +354,7 @@ def load_findings(pid):
     p = os.path.join(VERIF, "known_findings.json")
     if not os.path.exists(p):
         return []
-    return [f for f in json.load(open(p)).get("findings", []) if f.get("property") == pid]
+    return [f for f in json.load(open(p)).get("findings", []) if f.get("property") == pid or pid in f.get("also", [])]
 
 
 def sha(s):
